@@ -59,7 +59,13 @@ def check_read(uri, coll, label="", deep=True, cooler_obj=None):
                 if len(px) != len(exp):
                     errs.append("nnz %d != %d" % (len(px), len(exp)))
                 else:
+                    approx = getattr(coll, "approx_cols", ())
                     for col in exp.columns:
+                        if col in approx:
+                            if not np.allclose(px[col].values.astype(float), exp[col].values.astype(float),
+                                               rtol=1e-9, atol=1e-12, equal_nan=True):
+                                errs.append("pixels.%s differs from the model beyond rounding" % col)
+                            continue
                         if not _eq_arrays(px[col].values, exp[col].values):
                             bad = np.flatnonzero(px[col].values != exp[col].values)[:3]
                             errs.append("pixels.%s differs at rows %s: got %s want %s" % (
@@ -69,7 +75,7 @@ def check_read(uri, coll, label="", deep=True, cooler_obj=None):
                                 str(px[col].dtype) not in getattr(coll, "dtype_alternatives", {}).get(col, ()):
                             errs.append("pixels.%s dtype %s != %s" % (col, px[col].dtype, exp[col].dtype))
             if deep and not errs:
-                for col in coll.value_columns:
+                for col in [c_ for c_ in coll.value_columns if c_ not in getattr(coll, "approx_cols", ())]:
                     m = c.matrix(field=col, balance=False)[:]
                     want = coll.dense(col)
                     if m.shape != want.shape or not _eq_arrays(m, want):
